@@ -220,3 +220,5 @@ pub fn generate(out: &mut Out, tier: &str, seed: u64) {
 }
 
 pub const RULE: &str = "exhaustive: every set of <=2 (thorough <=3) known selections over positions 0..=5 of a 5-codepoint text, <=2 over 0..=6, <=3 over 0..=4 (nested, crossing, adjacent, zero-width, touching the end, both halves), every single reference range (bound when it coincides with a known selection), every operator x all x negate x limit {None,0,1,2} x allow_whitespace, through ResultTextSelection::related_text; random: up to 8 known selections on texts of 4..24 codepoints (one family with whitespace runs longer than the limit), reference sets of 1..3 members sorted/unsorted through ResultTextSelectionSet::related_text. One evaluation = one search; results compared as sorted handle lists (duplicates visible). Non-trivial = some operator returned a non-empty result; distinct = distinct request lines.";
+
+pub const EXHAUSTIVE: bool = true;
